@@ -16,7 +16,7 @@ pub open spec fn sat_sub(a: u64, b: u64) -> u64 { if a >= b { (a - b) as u64 } e
 
 /// C06 (async, whole-second clock): expired iff a ttl is set and now - birth (saturating) >= ttl
 pub open spec fn aexpired<R>(e: (R, u64, u64), ttl: Option<u64>) -> bool {
-    ttl is Some && sat_sub(now_secs(), e.1) >= ttl->Some_0
+    ttl is Some && sat_sub(spec_clock_secs(), e.1) >= ttl->Some_0
 }
 
 pub open spec fn a_is_min_hits<R>(m: Map<String, (R, u64, u64)>, q: Seq<String>, k: String) -> bool {
@@ -34,7 +34,7 @@ pub open spec fn a_arc_score<R>(m: Map<String, (R, u64, u64)>, q: Seq<String>, i
     s_fmul(s_to_f64(m[q[i]].2), s_to_f64((i + 1) as u64))
 }
 pub open spec fn a_age_factor(birth: u64, ttl: Option<u64>) -> f64 {
-    if ttl is Some { s_fmax(s_fsub(s_one(), s_fmin(s_fdiv(s_to_f64(sat_sub(now_secs(), birth)), s_to_f64(ttl->Some_0)), s_one())), s_zero()) } else { s_one() }
+    if ttl is Some { s_fmax(s_fsub(s_one(), s_fmin(s_fdiv(s_to_f64(sat_sub(spec_clock_secs(), birth)), s_to_f64(ttl->Some_0)), s_one())), s_zero()) } else { s_one() }
 }
 pub open spec fn a_freq_component(hits: u64, fw: Option<f64>) -> f64 {
     if fw is Some { if s_flt(s_zero(), s_to_f64(hits)) { s_fpowf(s_to_f64(hits), fw->Some_0) } else { s_zero() } } else { s_to_f64(hits) }
@@ -170,7 +170,7 @@ EVICT_ENS = [
 
 MA = '%s.remove(%s)' % (M0, K)
 QA = 'rm1(old(self).order@, %s)' % K
-NEW = '(value, now_secs(), 0u64)'
+NEW = '(value, spec_clock_secs(), 0u64)'
 # an existing key is replaced in place (never transiently absent) unless a memory bound forces the stale value out of the accounting first
 REPL = '(%s.contains_key(%s) && old(self).max_memory is None)' % (M0, K)
 INSERT_ENS = [
@@ -263,7 +263,7 @@ UNIT = dict(
            ensures=[FIND_FRAME,
                     ('argmin_documented_score', ['C08'], 'res is Some ==> exists|j: int| #[trigger] a_stored(old(cache)@, order@, j) && order@[j] == res->Some_0 && a_tlru_min_at(old(cache)@, order@, j, ttl, frequency_weight)'),
                     STUB_ENS[2]],
-           loops={0: finder_loop('a_tlru_score(cache@, order@, %s, ttl, frequency_weight)', 'tlru_cfg_ok(ttl, frequency_weight) && now == now_secs()')}),
+           loops={0: finder_loop('a_tlru_score(cache@, order@, %s, ttl, frequency_weight)', 'tlru_cfg_ok(ttl, frequency_weight) && now == spec_clock_secs()')}),
         fn('handle_entry_limit_eviction', split_self=True, rules=R4 + R5, requires=EVICT_REQ, ensures=EVICT_ENS,
            loops={0: dict(
                invariant_except_break=[('nothing_popped', 'cache@ == old(cache)@ && order@ == old(order)@')],
